@@ -703,6 +703,39 @@ func init() {
 			viol("run-once-ends", "run-once-did-not-end", fmt.Sprintf("run-once instance %s did not end within %s after the faults stopped", ro.Name, bound))
 		}
 		if returned && !f.Failed() {
+			// "Present at start-up" is what the instance's own initial
+			// listing showed (a stale listing may have hidden a recent
+			// upload): instances it never saw there are not required.
+			listed := map[string]bool{}
+			for _, op := range f.Bucket.Ops {
+				if op.Op == "list" && op.Err == "" && op.Node == ro.Name && strings.HasPrefix(op.Task, ro.Name+"/syncloop") {
+					for _, name := range op.Names {
+						if pn, ok := ParseSnapName(name); ok {
+							listed[pn.Instance] = true
+						}
+					}
+					break
+				}
+			}
+			for inst := range atStart {
+				if !listed[inst] {
+					f.Sim.Probe("runonce-instance-hidden-by-stale-listing")
+					delete(atStart, inst)
+				}
+			}
+			want = Logical{}
+			for _, name := range atStart {
+				for dbi, m := range cache[name] {
+					if want[dbi] == nil {
+						want[dbi] = map[string]Version{}
+					}
+					for k, v := range m {
+						if cur, ok := want[dbi][k]; !ok || v.TS > cur.TS {
+							want[dbi][k] = v
+						}
+					}
+				}
+			}
 			// not earlier: every instance present at start-up was merged
 			for _, inst := range sortedKeys(atStart) {
 				if inst == ro.Name {
